@@ -28,7 +28,6 @@ Definition s_normal : str := [110;111;114;109;97;108].
 Definition s_get : str := [103;101;116].
 Definition s_set : str := [115;101;116].
 Definition s_error : str := [101;114;114;111;114].
-Definition s_cancel : str := [99;97;110;99;101;108].
 Definition s_feature_not_implemented : str :=
   [102;101;97;116;117;114;101;45;110;111;116;45;105;109;112;108;101;109;101;110;116;101;100].
 
@@ -113,21 +112,21 @@ Fixpoint router_match (t : table) (p : pkt) : option nat :=
   end.
 
 (* ---- the automatic error reply ---- *)
-Record err := { e_code : Z; e_type : str; e_reason : str; e_text : str }.
-(* what is handed to Sender.Send: the received IQ, mutated in place by MakeError *)
-Record reply := { rp_attrs : attrs; rp_ns : option str; rp_any : bool; rp_err : option err }.
+(* What is handed to Sender.Send, as far as C06 speaks about it: an IQ with these
+   attributes and this error condition (the name of the defined-condition child of
+   <error/>).  The rest of the reply — legacy code, error type, an optional
+   human-readable <text/>, the echoed request payload, whether the reply is the
+   received object rewritten in place or a copy — is not fixed by the property and
+   not modelled. *)
+Record reply := { rp_attrs : attrs; rp_condition : option str }.
 
-Definition not_implemented : err :=
-  {| e_code := 501%Z; e_type := s_cancel; e_reason := s_feature_not_implemented; e_text := [] |}.
-
-(* IQ.MakeError: type := "error", from/to swapped, Error := &xerror; id, payload kept *)
-Definition make_error (a : attrs) (ns : option str) (any : bool) (e : err) : reply :=
+(* IQ.MakeError: type := "error", from/to swapped, Error := &xerror; id kept *)
+Definition make_error (a : attrs) (condition : str) : reply :=
   {| rp_attrs := {| a_type := s_error; a_id := a_id a; a_from := a_to a; a_to := a_from a |};
-     rp_ns := ns; rp_any := any; rp_err := Some e |}.
+     rp_condition := Some condition |}.
 
 (* iqNotImplemented *)
-Definition err_reply (a : attrs) (ns : option str) (any : bool) : reply :=
-  make_error a ns any not_implemented.
+Definition err_reply (a : attrs) : reply := make_error a s_feature_not_implemented.
 
 (* ---- Router.route ---- *)
 Inductive event :=
@@ -153,7 +152,7 @@ Definition route_ordinary (t : table) (p : pkt) : list event :=
   | Some i => [EHandle i]
   | None =>
       match p with
-      | PIQ a ns any => if is_request (a_type a) then [ESend (err_reply a ns any)] else []
+      | PIQ a ns any => if is_request (a_type a) then [ESend (err_reply a)] else []
       | _ => []
       end
   end.
